@@ -161,9 +161,13 @@ def cases(draw, pickers=("LoG", "DoG", "ZNCC")):
     picker = draw(st.sampled_from(list(pickers)))
     scale = draw(st.sampled_from([1.0, 0.5, 2.0, 1.37]))
     if picker == "ZNCC":
-        ts = draw(st.sampled_from([13, 14, 15]))
-        tshape = [ts, ts, ts]
-        blobs = draw(planted.blob_offsets((ts - 1) / 2 - 0.5, nblob=(3, 4), sigma=(0.9, 1.1), rmin=2.5))
+        if draw(st.booleans()):
+            ts = draw(st.sampled_from([13, 14, 15]))
+            tshape = [ts, ts, ts]
+        else:
+            tshape = [draw(st.sampled_from([13, 14, 15, 17])) for _ in range(3)]
+        ts = max(tshape)
+        blobs = draw(planted.blob_offsets((min(tshape) - 1) / 2 - 0.5, nblob=(3, 4), sigma=(0.9, 1.1), rmin=2.5))
         nrot = draw(st.integers(0, 3))
         rots = planted.rotation_set(draw, kmax=nrot + 1, min_sep_deg=35.0, max_angle_deg=90.0)[1:] if nrot else []
         depth = int(math.ceil(ts / 2))
@@ -232,6 +236,7 @@ def labels(d):
         labs.add("chunk<depth")
     if d["picker"] == "ZNCC":
         labs.add(f"K:{1 + len(d['rots'])}")
+        labs.add("template:cubic" if len(set(d["tshape"])) == 1 else "template:non-cubic")
     return sorted(labs)
 
 
